@@ -19,6 +19,10 @@ CACHE_COMPONENTS = {
     "stub": [],
 }
 
+def SCHED_COMPONENTS(what):
+    return {"real": [what + " - instrumented copy of /repo's working tree (source-to-source: lock wrappers + yield points, no semantic change)", "Go runtime mutexes (TryLock) as the only lock state", "race detector (second build)"],
+            "stub": ["Go scheduler for registered tasks -> /verif/simrt (seeded choice of the running task at every yield point / lock acquisition)"] + (MPT_COMPONENTS["stub"] if "core/util" in what else [])}
+
 def mpt(level="exploration", **kw):
     d = dict(level=level, components=MPT_COMPONENTS)
     d.update(kw)
@@ -132,5 +136,27 @@ PROPS = {
         rule="block trees and operations as in C06 (short runs: no capacity is reached, decided from the model). Visibility: a write/removal in a transaction cache is invisible to its block cache and to sibling transactions until the transaction commits; a block's writes are invisible to StateCache.Get, query caches and other blocks until the block commits. Completeness: a lookup in a context whose chain is fully committed up to a write MUST hit with that value (own uncommitted writes always). Copy oracle: values are mutable (byte values, and real util.LeafNode / FullNode / ExtensionNode, which implement statecache.Value); the harness scribbles on every value right after handing it in and on every value it receives (bytes, paths, child keys, SetValue, origin); all later reads through every layer must still equal the model. Non-trivial: >= 2 writes and >= 1 hit",
         state_measure="digest of (block-tree shape with commit flags, per-block committed key/tombstone sets) at the end of the run",
         assumptions=["'unless evicted for capacity' is decided from the model: completeness is demanded only while fewer than 200 versions of the key and fewer than 2000 blocks were added"],
+    ),
+    "C08": dict(
+        level="exploration", components=SCHED_COMPONENTS("core/statecache"), sched=True, race=True,
+        quick=dict(runs=96000, race_runs=24000, budget_s=60), thorough=dict(runs=6000000, race_runs=1500000, budget_s=1200),
+        rule="an instrumented copy of the current tree (yield point before every statement of package statecache that calls or touches shared state, i.e. at every individual LRU/map access of StateCache.Get and commit; every Lock/Unlock routed through the scheduler). Setup (sequential): a block tree of 3-7 blocks with forks, each block writing at most one key (so no map-iteration order is observable), a committed prefix, optional warm-up reads. Scheduled phase: 2-5 tasks - committers (each its own blocks, oldest first or any order, the same block by two tasks) and readers (StateCache.Get, QueryBlockCache.Get, BlockCache.Get of bystander blocks at ancestors, the committing blocks and descendants) - under a seeded scheduler (uniform random walk, PCT with <= 3 priority changes, run-until-blocked with forced pre-emptions). Oracles: (a) every hit equals the value the block tree determines for (key, block): the first block on the chain that writes the key, committed yet or not (timing independent; only hit-or-miss may vary); (b) a lookup invoked after the commits of every block on its chain down to the writer had returned (event sequence stamps) must hit; (c) the same seeded schedules on a -race build whose task hand-off is invisible to the race detector: any report with both accesses inside the module is a violation; (d) no panic, no deadlock among instrumented locks. Non-trivial: >= 1 context switch and >= 1 commit in the scheduled phase; distinct = distinct script digests",
+        state_measure="distinct interleavings: digest of the task chosen at every scheduler decision with more than one enabled task (+ total steps)",
+        assumptions=["library code outside the module (LRU internals, zap) executes atomically within a scheduler step; map iteration order inside the code under test is not controlled, so scheduled blocks write at most one key",
+                     "transaction-cache commits concurrent with their block's commit are outside the property's quantifier and are not generated (a plain vs. atomic counter update there is reported by the race detector; noted in DESIGN.md)"],
+    ),
+    "C16": dict(
+        level="exploration", components=SCHED_COMPONENTS("core/util (trie, node stores, change collector)"), sched=True, race=True,
+        quick=dict(runs=14000, race_runs=5000, budget_s=60), thorough=dict(runs=800000, race_runs=250000, budget_s=1500),
+        rule="an instrumented copy of the current tree (yield points in merkle_patricia_trie.go, mpt_nodedb.go, mpt_node_change.go; every Lock/RLock/Unlock module-wide routed through the scheduler, the real mutexes stay the only lock state). Setup: a trie on a memory / layered / memory-over-persistent store with 0-4 entries over a pool of 2-4 paths (prefixes of one another); in 1/5 of the runs reachable nodes are then removed from the store (node loss) and the run continues on a fresh trie object. Scheduled phase: 2-4 tasks with 2-6 operations each on the SAME trie: Insert (unique values), Delete, GetNodeValueRaw, Iterate, GetChanges/GetDeletes/GetChangeCount, GetMissingNodeKeys, HasMissingNodes, SaveChanges to a PNodeDB, GetRoot. Oracles: (a) the history (invoke/return stamped with the scheduler's event sequence) plus a final read-all is checked with porcupine against a sequential map model (Illegal = violation, Unknown = inconclusive, counted, never reported); (b) the final root equals the independent root of the final content; (c) -race build under the same seeded schedules: any report inside the module is a violation; (d) no panic, no deadlock; lossy runs: reads never return a wrong value. Non-trivial: >= 1 context switch",
+        state_measure="distinct interleavings: digest of the task chosen at every scheduler decision with more than one enabled task (+ total steps)",
+        assumptions=[ROCKS_ASSUMPTION, "goroutines the code spawns itself (SaveChanges' writer) are not scheduled tasks: they run while their parent waits and every other task is parked", "writer preference of sync.RWMutex is not modelled (more schedules than the runtime allows, none that a correct program may exclude)"],
+    ),
+    "C20": dict(
+        level="exploration", components=SCHED_COMPONENTS("core/logging MemLogger/MemCore + real zap"), sched=True, race=True,
+        quick=dict(runs=12000, race_runs=4000, budget_s=60), thorough=dict(runs=700000, race_runs=200000, budget_s=1500),
+        rule="real MemLogger/MemCore with real zap loggers. Sequential histories (a fifth of the runs): derive loggers (core.With and zap Logger.With, at different times, nested) and write through any of them, totals below, at (1023/1024/1025) and far above the capacity (up to 3000 per burst); after checks and at the end GetLogs must equal the last min(n,1024) written ids newest first and WriteLogs must list exactly those ids in that order (entries are copied out immediately: the buffer reuses entry objects). Scheduled histories (instrumented copy, yield points in inmemory_logger.go): a sequential prefix, then 2-4 tasks writing through root and derived loggers, deriving further loggers and taking GetLogs snapshots; oracle after the join: no duplicate, exactly min(n,1024) entries, per task the retained entries are a suffix of its writes in reverse program order, pre-task entries are older than all task entries and only retained if no task entry was dropped (= the most recent entries of some linearisation); snapshots: no duplicate, per-task order; -race build under the same schedules: any report with both accesses inside the module is a violation. Non-trivial: >= 2 writes and a derived logger / a context switch",
+        state_measure="distinct interleavings (scheduled runs) / (number of loggers, wrapped?, total mod 7) (sequential runs)",
+        assumptions=["readers of GetLogs receive pointers to entry objects that the ring reuses; the harness copies the messages out immediately and a report that involves the harness's own read of such an entry is not counted (DESIGN.md section 7, C20)"],
     ),
 }
